@@ -345,7 +345,9 @@ def run(ctx):
     os.makedirs(work, exist_ok=True)
     try:
         closure(ctx, work)
-        for cfg in (['prod'] if ctx.quick else ['prod', 'p64', 'p32']):
+        # (the 32-bit-word code is a configuration of its own - code under #if on the word size exists only there - so its writable symbols
+        #  are snapshotted in the quick tier too)
+        for cfg in (['prod', 'p32'] if ctx.quick else ['prod', 'p64', 'p32']):
             try:
                 d, objs = build.build_lib(cfg)
                 exe = build.build_driver(cfg, 'c20_drv.cpp', extra_ld=['-no-pie', '-lpthread'], name='c20_drv_nopie')
